@@ -85,6 +85,7 @@ type Term struct {
 
 // TB is a term bank (hash-consing table plus declarations).
 type TB struct {
+	UsesIdx bool
 	// Distinct holds pairs of terms known to be different while a spec is evaluated under a case split
 	// (key: smaller ID, larger ID); consulted by Eq so that reads over writes at the other index simplify.
 	Distinct map[[2]int]bool
@@ -366,6 +367,9 @@ func (tb *TB) Eq(a, b *Term) *Term {
 	if a.Op == "int" && b.Op == "int" {
 		return tb.Bool(a.Int.Cmp(b.Int) == 0)
 	}
+	if a.Op == "app" && b.Op == "app" && a.Name == "idx" && b.Name == "idx" && a.Args[0] == b.Args[0] {
+		return tb.Eq(a.Args[1], b.Args[1])
+	}
 	if len(tb.Distinct) > 0 && a.Sort == SInt {
 		x, y := a, b
 		// (+ c x) vs (+ c y): compare x and y
@@ -513,6 +517,17 @@ func (tb *TB) Sub(a, b *Term) *Term {
 }
 
 func (tb *TB) Neg(a *Term) *Term { return tb.Sub(tb.Int(0), a) }
+
+// Idx is the position off+i of element i of a slice with offset off. When the offset is not a literal the sum is
+// wrapped in the uninterpreted function idx (axiom: idx(o,i) = o+i, trigger idx(o,i)) so that quantifier triggers
+// over element reads do not contain arithmetic, which E-matching cannot match after the solver normalises sums.
+func (tb *TB) Idx(off, i *Term) *Term {
+	if off.Op == "int" {
+		return tb.Add(off, i)
+	}
+	tb.UsesIdx = true
+	return tb.App("idx", SInt, off, i)
+}
 
 func (tb *TB) Mul(a, b *Term) *Term {
 	mustSort(a, SInt)
